@@ -9,7 +9,7 @@ from harness import tlc
 from . import gen_client as GC
 
 INVS = ["ContractHolds", "ShutdownIsFinal", "HeartbeatWhileReady"]
-BASE = dict(PROTO='"at4"', MaxTask=12, MaxEnv=10, MaxFrames=7, H=2, Notifies="TRUE", F_WATCHDOG="TRUE", F_RECHECK="TRUE", Cmds="FALSE", PostInit="FALSE", Record="FALSE")
+BASE = dict(PROTO='"at4"', MaxTask=12, MaxEnv=10, MaxFrames=7, H=2, Notifies="TRUE", F_WATCHDOG="TRUE", F_RECHECK="TRUE", F_ZONE2AC="TRUE", Cmds="FALSE", PostInit="FALSE", Subs="FALSE", Record="FALSE")
 
 
 def cfg(over=None, invs=INVS, emit=False):
@@ -67,6 +67,8 @@ def to_harness(l2, proto, seed=0):
                 b.call(o["target"], o["method"], list(o.get("args", [])))
             else:
                 b.call("airtouch", o["method"])
+        elif k in ("sub", "unsub"):
+            b.op(op=k, who=o["who"], kind=o["kind"], target=o["target"])
         elif k == "conn_up":
             b.op(op="resolve", how="ok")
         elif k == "conn_down":
